@@ -5,11 +5,14 @@ import OFCore.Drv.Per
 Line protocol for the engine domain (`sim`): one self-contained case per line.
 
 ```
-sim P <nP> G <nG> M <m…> MSL <k>
+sim P <nP> G <nG> M <m…> [RL <role…>] MSL <k>
     V <nV> { <entity> <vtype> <unit> <default> <neutral> <end|-> <noStore> F <nF> { <start> <expr> } }
     I <nI> { <v> <period> <values…> }
     R <nR> { calc <v> <period> | add <v> <period> | arm <id> | disarm <id> }
 expr ::= c <k> | v <w> <pt> <0|1> | o1 <o> expr | o2 <o> expr expr | f <id> expr
+         (o1 codes: 0 neg, 1 sum over members, 2 projection, 3 nonzero, >= 100 scaling; role
+          operations with role r = code % 10: 10+r sum(role), 20+r value_from_person(role),
+          30+r nb_persons(role), 40+r any(role))
 pt   ::= same | this_year | first_month | last_month | last_year | off:<n>:<unit> | fx:<period>
 ```
 Answer: `<res>;<res>;…|<known entries>` with res = `ok:<v,…>` | `CYCLE` | `ERR` | `FUEL`, known =
@@ -146,6 +149,10 @@ def pCase : Parser SimCase := fun ts => do
   let (nG, ts) ← pNat ts
   let (_, ts) ← pTok "M" ts
   let (mem, ts) ← pMany pNat nP ts
+  -- optional: the role of each person (absent = everybody holds role 0)
+  let (roles, ts) ← (match ts with
+    | "RL" :: r => pMany pNat nP r
+    | _ => some ([], ts))
   let (_, ts) ← pTok "MSL" ts
   let (msl, ts) ← pNat ts
   let (_, ts) ← pTok "V" ts
@@ -163,7 +170,7 @@ def pCase : Parser SimCase := fun ts => do
   let (_, ts) ← pTok "R" ts
   let (nR, ts) ← pNat ts
   let (reqs, ts) ← pMany pReq nR ts
-  pure ({ decl := { nP := nP, nG := nG, mem := mem, msl := msl, vars := vars, inputs := inputs }, reqs := reqs }, ts)
+  pure ({ decl := { nP := nP, nG := nG, mem := mem, msl := msl, vars := vars, inputs := inputs, roles := roles }, reqs := reqs }, ts)
 
 def showVal (x : Val) : String := ",".intercalate (x.map toString)
 
